@@ -268,6 +268,11 @@ def prepare(rng, sc):
             sc["dt"] = gen.logu(rng, 1e-4, 1.0)
         else:
             sc["dt"] = sc["removal"] * sc["m0"] / (tot * sc["A"])
+            if sc["dt"] > 200.0:
+                # step lengths are kept below 200 h (the area takes up the difference): an implementation that sub-divides long
+                # steps must not turn a sampled run into hours of computing
+                k = sc["dt"] / rng.uniform(1.0, 200.0)
+                sc["dt"], sc["A"] = sc["dt"] / k, float(sc["A"]) * k
             u = rng.random()
             if u < 0.12:
                 # a step length given as a whole number of hours (a Python int or a numpy integer): the area takes up the difference
